@@ -54,6 +54,7 @@ type DBSpec struct {
 	Types       []int // pool indices used, all migrated
 	Programs    [][]Op
 	OrBase      bool
+	SessionPrep bool `json:",omitempty"` // handle opened WITHOUT Config.PrepareStmt; every op runs on its own db.Session(&gorm.Session{PrepareStmt: true})
 	WatchdogSec int `json:",omitempty"` // 0 = 60: seconds after which a round is declared hung
 	SyncOps     int `json:",omitempty"` // the first SyncOps ops of every program start behind a common barrier (0 = 1: start barrier only)
 }
@@ -321,6 +322,25 @@ func execOp(h *gorm.DB, base *gorm.DB, op Op, panics *[]string, pmu *sync.Mutex)
 			tx = h.Where(between, op.Lo, op.Hi).Order("id").Find(sl)
 		}
 		return done(tx, canon(reflect.ValueOf(sl), 0))
+	case "fresh_find", "fresh_take", "fresh_update":
+		// a statement text that is NEW at this step (the tag op.Par is part of the text) and IDENTICAL
+		// for every goroutine at the same step; the bound values select the goroutine's own rows
+		switch op.Kind {
+		case "fresh_find":
+			sl := d.NewSlice()
+			tx := h.Where(fmt.Sprintf("id BETWEEN ? AND ? AND %d = %d", op.Par, op.Par), op.Lo, op.Hi).Order("id").Find(sl)
+			return done(tx, canon(reflect.ValueOf(sl), 0))
+		case "fresh_take":
+			rec := d.New()
+			tx := h.Where(fmt.Sprintf("id = ? AND %d = %d", op.Par, op.Par), op.ID).Take(rec)
+			if tx.Error != nil {
+				return done(tx, "")
+			}
+			return done(tx, canon(reflect.ValueOf(rec), 0))
+		default:
+			tx := h.Model(d.New()).Where(fmt.Sprintf("id = ? AND %d = %d", op.Par, op.Par), op.ID).Update("val", op.Val)
+			return done(tx, "")
+		}
 	case "first":
 		rec := d.New()
 		tx := h.Where(between, op.Lo, op.Hi).First(rec, op.ID)
@@ -487,7 +507,7 @@ func runDB(spec DBSpec, dir string, serial bool) (obs DBObs) {
 	// 2. the handle under test
 	gids := &sync.Map{}
 	namer := &recNamer{gids: gids}
-	db, err := gorm.Open(sqlite.Open(dsn), &gorm.Config{Logger: logger.Discard, PrepareStmt: spec.PrepareStmt, NamingStrategy: namer})
+	db, err := gorm.Open(sqlite.Open(dsn), &gorm.Config{Logger: logger.Discard, PrepareStmt: spec.PrepareStmt && !spec.SessionPrep, NamingStrategy: namer})
 	if err != nil {
 		return fail("open", err)
 	}
@@ -514,12 +534,21 @@ func runDB(spec DBSpec, dir string, serial bool) (obs DBObs) {
 		base = db.Or("id < 0").Where(between, seedLo, seedHi).Session(&gorm.Session{})
 	}
 
+	// handle(): the handle an operation runs on.  SessionPrep: the shared handle has no statement
+	// cache of its own; every operation derives its own prepared session from it (the store is
+	// created once, before the goroutines start).
+	handle := func() *gorm.DB { return db }
+	if spec.SessionPrep {
+		db.Session(&gorm.Session{PrepareStmt: true})
+		handle = func() *gorm.DB { return db.Session(&gorm.Session{PrepareStmt: true}) }
+	}
+
 	var pmu sync.Mutex
 	runProg := func(g int) {
 		prog := spec.Programs[g]
 		rs := make([]OpResult, 0, len(prog))
 		for _, op := range prog {
-			rs = append(rs, execOp(db, base, op, &obs.Panics, &pmu))
+			rs = append(rs, execOp(handle(), base, op, &obs.Panics, &pmu))
 		}
 		obs.Results[g] = rs
 	}
@@ -573,7 +602,7 @@ func runDB(spec DBSpec, dir string, serial bool) (obs DBObs) {
 					if atomic.LoadInt32(&abort) != 0 {
 						return
 					}
-					results[g][i] = execOp(db, base, op, &obs.Panics, &pmu)
+					results[g][i] = execOp(handle(), base, op, &obs.Panics, &pmu)
 					atomic.StoreInt32(&doneOps[g], int32(i+1))
 				}
 			}(g)
@@ -1139,4 +1168,43 @@ func watchdogSec(spec DBSpec) int {
 		return spec.WatchdogSec
 	}
 	return 60
+}
+
+// genFresh: PrepareStmt rounds in which, step by step behind a spin barrier, all goroutines issue the
+// SAME statement text that nobody has issued before (first use of a text from many goroutines at
+// once), each on its own rows.  sessionPrep: the texts go through per-operation prepared sessions
+// of a handle opened without Config.PrepareStmt.
+func genFresh(r *lib.Rng, g int, sessionPrep bool, thorough bool) DBSpec {
+	singles := Families["single"]
+	t1 := singles[r.Intn(len(singles))]
+	t2 := singles[r.Intn(len(singles))]
+	for t2 == t1 {
+		t2 = singles[r.Intn(len(singles))]
+	}
+	spec := DBSpec{G: g, Cold: false, PrepareStmt: true, SessionPrep: sessionPrep, Conns: 4, Types: []int{t1, t2}}
+	steps := 24
+	if thorough {
+		steps = 30
+	}
+	kinds := make([]string, steps)
+	types := make([]int, steps)
+	for k := range kinds {
+		kinds[k] = lib.Pick(r, []string{"fresh_find", "fresh_take", "fresh_take", "fresh_update"})
+		types[k] = lib.Pick(r, []int{t1, t2})
+	}
+	for gi := 0; gi < g; gi++ {
+		base := int64(gi) * idSpan
+		prog := []Op{
+			{Kind: "create_batch", T: t1, IDs: []int64{base + 1, base + 2, base + 3}, Name: "f", Val: 10},
+			{Kind: "create_batch", T: t2, IDs: []int64{base + 1, base + 2}, Name: "f", Val: 20},
+		}
+		for k := 0; k < steps; k++ {
+			op := Op{Kind: kinds[k], T: types[k], Par: int64(1000 + k), Lo: base + 1, Hi: base + idSpan - 1,
+				ID: base + 1 + int64(k%2), Val: int64(100*k + gi)}
+			prog = append(prog, op)
+		}
+		spec.Programs = append(spec.Programs, prog)
+	}
+	spec.SyncOps = len(spec.Programs[0])
+	return spec
 }
